@@ -2,6 +2,7 @@ package main
 
 import (
 	"fmt"
+	"sort"
 	"strconv"
 	"strings"
 
@@ -21,6 +22,8 @@ const (
 	retvFee     = 10000
 	minLock     = 5
 	maxLock     = 1000
+	crVoting    = 12 // CR VotingPeriod: the voting period ends (election, candidates' locks released) at height 12, 24, ..
+	crMembers   = 2
 )
 
 // ---------------------------------------------------------------- oracle
@@ -33,7 +36,7 @@ const (
 //     and neither is negative; totals and locks are never negative.
 
 type oAcct struct{ total, deposit, penalty, st int64 }
-type oStake struct{ rights, used int64 }
+type oStake struct{ rights, used, locked int64 }
 
 var (
 	oAccts   map[int]oAcct
@@ -45,15 +48,20 @@ var (
 	oRecancel map[int]bool
 	oCRs     map[int]oAcct
 	oCRRets  map[int]int
+	oRenewKey map[string]int // accepted renewals per refer key in the open block
+	oRenewMax map[int]int    // per stake address: most renewals of one vote in the open block
+	oTainted  map[int]bool   // stake addresses on which one vote was renewed twice in one block
 )
 
 func oracle(t []string, out string) *hx.Violation {
 	switch t[0] {
 	case "reset":
 		oAccts, oStakes, oRecancel, oCRs = map[int]oAcct{}, map[int]oStake{}, map[int]bool{}, map[int]oAcct{}
+		oTainted = map[int]bool{}
 		fallthrough
 	case "begin":
 		oRets, oWd, oSpends, oPenBlk, oCRRets = map[int]int{}, map[int]int64{}, map[int]int{}, map[int]int64{}, map[int]int{}
+		oRenewKey, oRenewMax = map[string]int{}, map[int]int{}
 	case "ret":
 		if out == "accept" {
 			o := int(i64(t[1]))
@@ -71,9 +79,19 @@ func oracle(t []string, out string) *hx.Violation {
 				oRecancel[o] = true
 			}
 		}
-	case "vote", "retv":
+	case "vote", "retv", "renew":
 		if out == "accept" {
-			oSpends[int(i64(t[1]))]++
+			k := int(i64(t[1]))
+			oSpends[k]++
+			if t[0] == "renew" {
+				oRenewKey[t[2]]++
+				if oRenewKey[t[2]] > oRenewMax[k] {
+					oRenewMax[k] = oRenewKey[t[2]]
+				}
+				if oRenewKey[t[2]] >= 2 {
+					oTainted[k] = true
+				}
+			}
 		}
 	case "end":
 		f := strings.Fields(out)
@@ -131,15 +149,20 @@ func oracle(t []string, out string) *hx.Violation {
 					viol = &hx.Violation{Kind: "cr-negative-balance", Detail: fmt.Sprintf("candidate=%d total=%d lock=%d", id, a.total, a.deposit)}
 				}
 			} else {
-				s := oStake{i64(p[1]), i64(p[2])}
+				s := oStake{i64(p[1]), i64(p[2]), i64(p[3])}
 				pre := oStakes[id]
 				oStakes[id] = s
 				bad := s.used > s.rights || s.used < 0 || s.rights < 0
 				worse := s.used-s.rights > pre.used-pre.rights || (s.used < 0 && s.used < pre.used) || (s.rights < 0 && s.rights < pre.rights)
+				if viol == nil && s.locked > s.used && s.locked-s.used > pre.locked-pre.used {
+					viol = &hx.Violation{Kind: "votes-not-accounted", Detail: fmt.Sprintf(
+						"stake=%d same_vote_renewals_in_block=%d rights=%d used=%d votes_on_producers=%d: DPoS v2 votes are in use on producers that UsedDposV2Votes does not count (they can be returned while still voting)",
+						id, oRenewMax[id], s.rights, s.used, s.locked)}
+				}
 				if viol == nil && bad && worse {
 					viol = &hx.Violation{Kind: "votes-overdraft", Detail: fmt.Sprintf(
-						"stake=%d consumers_in_block=%d rights=%d used=%d (before: rights=%d used=%d): more DPoS v2 votes in use than vote rights",
-						id, oSpends[id], s.rights, s.used, pre.rights, pre.used)}
+						"stake=%d consumers_in_block=%d after_double_renewal=%v rights=%d used=%d (before: rights=%d used=%d): more DPoS v2 votes in use than vote rights",
+						id, oSpends[id], oTainted[id], s.rights, s.used, pre.rights, pre.used)}
 				}
 			}
 		}
@@ -178,6 +201,10 @@ type genState struct {
 	nextO  int
 	touched map[int]bool // owners with a state-changing tx (cancel / pen) queued in the open block
 	crs    []int
+	crVoted map[int]bool
+	crRegd  map[int]bool
+	boundary bool
+	stale  []string // renewals of votes that have been renewed already (stale refer keys)
 	nextC  int
 }
 
@@ -263,6 +290,9 @@ func (s *genState) block(body func()) {
 	s.h++
 	s.g.Emit("begin %d", s.h)
 	s.touched = map[int]bool{}
+	s.crRegd = map[int]bool{}
+	s.renewExpiring()
+	s.crSchedule()
 	body()
 	s.g.Emit("end")
 }
@@ -292,6 +322,7 @@ func (s *genState) regCR() {
 	c := s.nextC
 	s.nextC++
 	s.g.Emit("crreg %d %d", c, minDeposit+int64(s.r.Pick(0, 0, 1, 500, 2000))*ela)
+	s.crRegd[c] = true
 	s.crs = append(s.crs, c)
 }
 
@@ -328,6 +359,23 @@ func (s *genState) emitCRRet(c int, want int64) {
 	s.g.Emit("crret %d %d %d %d %d %s", c, inp, tinp, inp-want, want-fee, strings.Join(chosen, ","))
 }
 
+// the CR voting period ends at heights that are multiples of crVoting; aim at its boundaries: every candidate
+// gets its vote once it is active, and (half of the histories) one candidate unregisters exactly
+// DepositLockupBlocks before the end, so that lock release and election meet in one block
+func (s *genState) crSchedule() {
+	if s.h%crVoting == 7 {
+		for _, c := range s.crs {
+			if cand := w.cm.GetCandidate(crCID(w.cr(c))); cand != nil && !s.crVoted[c] {
+				s.g.Emit("crvote %d %d", c, int64(c+1)*ela)
+				s.crVoted[c] = true
+			}
+		}
+	}
+	if s.h%crVoting == crVoting-lockup && len(s.crs) > 0 && s.boundary {
+		s.g.Emit("crcancel %d", s.crs[s.r.Intn(len(s.crs))])
+	}
+}
+
 func (s *genState) randomCRTx() {
 	r := s.r
 	if len(s.crs) == 0 || (len(s.crs) < 4 && r.Chance(10)) {
@@ -335,6 +383,18 @@ func (s *genState) randomCRTx() {
 		return
 	}
 	c := s.crs[r.Intn(len(s.crs))]
+	cand := w.cm.GetCandidate(crCID(w.cr(c)))
+	if cand == nil && r.Chance(30) && !s.crRegd[c] { // the record left the candidate map at the end of the voting period: register again
+		s.g.Emit("crreg %d %d", c, minDeposit+int64(r.Pick(0, 1, 500))*ela)
+		s.crRegd[c] = true // CheckDuplicateTx allows one RegisterCR per CID per block
+		s.crVoted[c] = false
+		return
+	}
+	if cand != nil && !s.crVoted[c] && r.Chance(60) { // one vote per registration, distinct amounts (no ties in the election)
+		s.g.Emit("crvote %d %d", c, int64(c+1)*ela)
+		s.crVoted[c] = true
+		return
+	}
 	switch r.Intn(6) {
 	case 0:
 		s.g.Emit("crdep %d %d", c, int64(r.Pick(1, 10, 100, 1000, 2500))*ela+int64(r.Intn(3)))
@@ -452,7 +512,32 @@ func (s *genState) randomTx() {
 			}
 		}
 		s.g.Emit("vote %d %d %s %s", k, lock, strings.Join(vs, ","), bad)
-	case 12, 13:
+	case 12:
+		k := r.Intn(5)
+		if vs := s.liveVotes(k); len(vs) > 0 && r.Chance(70) {
+			s.emitRenew(k, vs[r.Intn(len(vs))])
+			return
+		}
+		if len(s.stale) > 0 && r.Chance(20) { // stale key, only if no live vote could be confused with it
+			line := s.stale[r.Intn(len(s.stale))]
+			f := strings.Fields(line)
+			kk, _ := strconv.Atoi(f[1])
+			twin := false
+			for _, v := range s.liveVotes(kk) {
+				if strconv.Itoa(v.lock) == f[3] && strconv.FormatInt(v.amount, 10) == f[4] {
+					twin = true
+				}
+				if v.key == f[2] {
+					twin = true
+				}
+			}
+			if !twin {
+				s.g.Emit("%s", line)
+			}
+			return
+		}
+		fallthrough
+	case 13:
 		k := r.Intn(5)
 		free := s.freeRights(k)
 		v := amountAround(r, free)
@@ -460,6 +545,50 @@ func (s *genState) randomTx() {
 			v = int64(r.Pick(0, 1, retvFee, retvFee+1))
 		}
 		s.g.Emit("retv %d %d", k, v)
+	}
+}
+
+type liveVote struct {
+	key                string
+	lock, born         int
+	amount             int64
+}
+
+func (s *genState) liveVotes(k int) []liveVote {
+	var out []liveVote
+	sa := stakeAddr(w.stake(k))
+	for _, p := range w.st.GetDposV2Producers() {
+		for rk, dvi := range p.GetAllDetailedDPoSV2Votes()[sa] {
+			out = append(out, liveVote{rk.String(), int(dvi.Info[0].LockTime), int(dvi.BlockHeight), int64(dvi.Info[0].Votes)})
+		}
+	}
+	sort.Slice(out, func(i, j int) bool { return out[i].key < out[j].key })
+	return out
+}
+
+func (s *genState) emitRenew(k int, v liveVote) {
+	newLock := v.lock + 1 + s.r.Intn(8)
+	switch s.r.Intn(12) {
+	case 0:
+		newLock = v.lock
+	case 1:
+		newLock = v.born + maxLock + 1
+	}
+	s.g.Emit("renew %d %s %d %d %d %d", k, v.key, v.lock, v.amount, v.born, newLock)
+	s.stale = append(s.stale, fmt.Sprintf("renew %d %s %d %d %d %d", k, v.key, v.lock, v.amount, v.born, newLock+3))
+}
+
+// renewals placed in the very block in which the old vote expires (height = lock + 1)
+func (s *genState) renewExpiring() {
+	for k := 0; k < 5; k++ {
+		for _, v := range s.liveVotes(k) {
+			if v.lock+1 == s.h && s.r.Chance(60) {
+				s.emitRenew(k, v)
+				if s.r.Chance(6) { // the same vote renewed twice in one block
+					s.emitRenew(k, v)
+				}
+			}
+		}
 	}
 }
 
@@ -475,8 +604,8 @@ func (s *genState) freeRights(k int) int64 {
 var _ = common.Fixed64(0)
 
 func history(g *hx.Gen, r *hx.Rand, blocks int) {
-	s := &genState{g: g, r: r, touched: map[int]bool{}}
-	g.Emit("reset %d %d %d %d %d %d %d", lockup, minDeposit, minFee, retvFee, minLock, maxLock, illegalPen)
+	s := &genState{g: g, r: r, touched: map[int]bool{}, crVoted: map[int]bool{}, crRegd: map[int]bool{}, boundary: r.Chance(50)}
+	g.Emit("reset %d %d %d %d %d %d %d %d %d", lockup, minDeposit, minFee, retvFee, minLock, maxLock, illegalPen, crVoting, crMembers)
 	s.block(func() {
 		s.regOwner(true)
 		s.regOwner(true)
@@ -486,6 +615,7 @@ func history(g *hx.Gen, r *hx.Rand, blocks int) {
 		}
 		s.g.Emit("stake 0 %d", 1000*ela)
 		s.stakes = append(s.stakes, 0)
+		s.regCR()
 		s.regCR()
 		s.regCR()
 	})
